@@ -9,7 +9,7 @@ from .c04 import norm_lark, norm_ref
 
 ID = 'C06'
 LEVEL = 'exploration'
-RULE = ('(a) tokens: 23 spellings of a newline-matching terminal (kept and %ignored) x 3 grammar shapes x 5 parser/lexer '
+RULE = ('(a) tokens: 25 spellings of a newline-matching terminal (two of them over inputs that also contain carriage returns) (kept and %ignored) x 3 grammar shapes x 5 parser/lexer '
         'configurations x str/bytes x every input over {a, b, newline, blank} up to the bound: every token returned by parse() and '
         'lex() -- also by the instance restored with Lark.load, and by parse(on_error=skip) on inputs it recovers -- must satisfy text[start:end]==value and carry the line/column of start_pos and the (per lexer family) end '
         'coordinate computed by count("\\n"); (b) tree meta: SHAPE grammars x propagate_positions x lalr/earley x inputs with a '
@@ -21,7 +21,8 @@ ASSUMPTIONS = ['line/column defined by text.count(newline) / rfind (reflex.linec
 DEADLINE = {'quick': 900, 'thorough': 3 * 3600}
 
 NLSPELL = ['"\\n"', '/\\n/', '/\\n+/', '/\\s+/', '/[\\s]+/', '/[^ab]+/', '/\\W+/', '/\\D+/', '/[\\x00-\\x20]+/', '/\\x0a/', '/\\012+/',
-           '/[\\t-\\r ]+/', '/./s', '/(.|\\n)+/', '/[^ab]/s', '/(?s:.)/', '/[\\N{LINE FEED}]+/', '/(\\r?\\n)+/', '/\\n[ ]*/', '/./is', '/./si', '/(.)+/ms', '/\\n/i']
+           '/[\\t-\\r ]+/', '/./s', '/(.|\\n)+/', '/[^ab]/s', '/(?s:.)/', '/[\\N{LINE FEED}]+/', '/(\\r?\\n)+/', '/\\n[ ]*/', '/./is', '/./si', '/(.)+/ms', '/\\n/i',
+           '/[\\r\\n]+/', '/[;\\x0a]+/']      # the last two: inputs also contain carriage returns (a lone \\r is not a line break)
 SHAPE_BODIES = ['start: (A | B | N)*', 'start: A (N A)* B?', 'start: a*\na: A N? | B N']
 SHAPE_BODIES_IGN = ['start: (A | B)*', 'start: A (A)* B?', 'start: a*\na: A | B A?']
 CONFIGS = [('lalr', 'basic'), ('lalr', 'contextual'), ('earley', 'basic'), ('earley', 'dynamic'), ('earley', 'dynamic_complete')]
@@ -67,12 +68,16 @@ def check_token(t, text, family, bad, where):
 
 
 def nl_heuristic_miss(spell):
-    """Cause predicate of finding #2 (textual newline heuristic), evaluated on the terminal spelling only."""
-    src = spell[1:-1] if spell.startswith('/') and spell.endswith('/') else spell
+    """Cause predicate of finding #2 (textual newline heuristic), evaluated on the terminal spelling only: the heuristic
+    looks at the regexp text *after* the grammar loader has evaluated \\xNN / \\uNNNN / \\n-style escapes (so /\\x0a/ contains
+    a real line feed and is recognised), and fires on a line feed, the two-character text \\n, \\s, a negated class, or a
+    dot under the s flag."""
+    import re as _r
     src = spell.strip('"') if spell.startswith('"') else spell[1:spell.rindex('/')]
     flags = spell[spell.rindex('/') + 1:] if spell.startswith('/') else ''
-    r = src if not flags else src
-    textual = '\n' in r or '\\n' in r or '\\s' in r or '[^' in r or (('(?s' in r or 's' in flags) and '.' in r)
+    ev = _r.sub(r'\\x([0-9a-fA-F]{2})', lambda m: chr(int(m.group(1), 16)), src)
+    ev = _r.sub(r'\\u([0-9a-fA-F]{4})', lambda m: chr(int(m.group(1), 16)), ev)
+    textual = '\n' in ev or '\\n' in ev or '\\s' in ev or '[^' in ev or (('(?s' in ev or 's' in flags) and '.' in ev)
     return not textual
 
 
@@ -80,7 +85,7 @@ def work_tok(item, res, only=None):
     _, si, ni, ignored, L = item
     spell = NLSPELL[ni]
     gtext = tok_grammar(si, spell, ignored)
-    inputs = list(util.strings('ab\n ', L))
+    inputs = list(util.strings('a\r\n;' if ni >= 23 else 'ab\n ', L))
     for parser, lexer in CONFIGS:
         for use_bytes in (False, True):
             if only and (only['parser'], only['lexer'], only['use_bytes']) != (parser, lexer, use_bytes):
